@@ -129,6 +129,11 @@ class Ctx:
         self.step_out = {}  # sid -> materialised step
         self.saved_states = {}
         self.culprits = []
+        self.last_registry_sig = None
+        self.flat_checked = set()
+        self._flat_skip = False
+        self._flat_checked_now = set()
+        self._pending_res = None
         self.algs = {}  # name -> (algorithm object, digest of its __dict__)
         self.auto_defaults = [(o, self.alg_digest(o)) for o in world.AUTO_DEFAULTS]
         self.fired = Counter()
@@ -427,25 +432,61 @@ class Ctx:
                             "(cola read/advanced/reseeded it)",
                     "after": after, "rng_touched_by": world.RNG_TOUCH[-8:]})
             return
+        _, deferred = self.observe(after)
+        if deferred is not None:
+            raise Violation(*deferred)
+
+    def registry_sig(self):
+        """Digest of every attribute registry (flatten is a pure function of operator state + registries)."""
+        from cola.ops import LinearOperator
+        acc = []
+        stack = [LinearOperator]
+        seen = set()
+        while stack:
+            c = stack.pop()
+            if id(c) in seen:
+                continue
+            seen.add(id(c))
+            acc.append((c.__module__ + "." + c.__qualname__, sorted(c.__dict__.get("_dynamic", {}).items())))
+            stack.extend(c.__subclasses__())
+        acc.sort(key=lambda t: t[0])
+        return jhash(acc)
+
+    def observe(self, after, res=None, want_digest=False):
+        """All observations of a step in ONE forked snapshot: digest of a result that contains operators,
+        fingerprints of new pool entries, every C18 invariant.  Returns (digest, deferred violation)."""
         before = Counter(self.stats)
 
         def body():
+            out = {"digest": result_digest(res) if want_digest else None, "viol": None}
             new = {}
             for slot, e in self.pool.items():
                 if e.fp is None:
                     e.fp = json.loads(json.dumps(rm.op_fingerprint(e.op)))
                     e.params = json.loads(json.dumps(rm.params_digest(e.op)))
                     new[slot] = [e.fp, e.params]
-            self._invariants_c18(after)
-            delta = {k: v - before.get(k, 0) for k, v in self.stats.items() if v != before.get(k, 0)}
-            return {"new": new, "stats": delta}
+            out["new"] = new
+            sig = self.registry_sig()
+            out["sig"] = sig
+            try:
+                self._flat_skip = (sig == self.last_registry_sig)
+                self._invariants_c18(after)
+            except Violation as v:
+                out["viol"] = [v.prop, v.inv, v.detail]
+            out["flat_checked"] = sorted(self._flat_checked_now)
+            out["stats"] = {k: v - before.get(k, 0) for k, v in self.stats.items() if v != before.get(k, 0)}
+            return out
 
+        self._flat_checked_now = set()
         out = self.snapshot_eval(body)
         for slot, (fp, params) in out["new"].items():
             self.pool[slot].fp, self.pool[slot].params = fp, params
         for k, v in out["stats"].items():
             self.stats[k] += v
         self.stats["observer_snapshots"] += 1
+        self.last_registry_sig = out["sig"]
+        self.flat_checked.update(out["flat_checked"])
+        return out["digest"], out["viol"]
 
     def _invariants_c18(self, after):
         bad = self.ledger.check()
@@ -482,6 +523,12 @@ class Ctx:
         self.check_flat(slot, e, after)
 
     def check_flat(self, slot, e, after):
+        if self._flat_skip and slot in self.flat_checked:
+            # flatten() is a pure function of the operator's state (just verified unchanged: I-OP) and of the
+            # attribute registries (digest unchanged since this operator's last full I-FLAT check)
+            self.stats["flat_checks_skipped_unchanged"] += 1
+            return
+        self._flat_checked_now.add(slot)
         op = e.op
         try:
             leaves, unflatten = op.flatten()
@@ -611,7 +658,8 @@ class Ctx:
             self.cur = None
         self.events.append(("user", sid, step["act"][0]))
         self.sched_sig.append("u:" + step["act"][0])
-        self.check_invariants(sid, "user step %d" % sid)
+        if self.prop == "C17":  # a user-only step runs no cola code: nothing for the C18 observer to look at
+            self.check_invariants(sid, "user step %d" % sid)
 
     def op_mkalg(self, step, out_step):
         """The user builds an algorithm object once and reuses it across calls."""
@@ -675,8 +723,18 @@ class Ctx:
             return call(step["fn"], **args)
 
         fault = self.prepare_faults(step, out_step, body)
+        self._pending_res = None
         outcome = self._guarded(step, fault, body, store=step.get("out"))
         cur_used = self._last_used
+        after = "call step %d (%s, outcome %s)" % (sid, step["fn"], outcome[0])
+        deferred = None
+        if self.prop == "C18":
+            # ONE forked observer per step: result digest (if it contains operators) + all invariants
+            dig, deferred = self.observe(after, self._pending_res, outcome[0] == "ok" and outcome[1] is None)
+            if outcome[0] == "ok" and outcome[1] is None:
+                outcome[1] = dig
+                self._last_outcome = outcome[:2]
+            self._pending_res = None
         self.events.append(("call", sid, step["fn"], outcome[0], jhash(outcome[1:]), len(cur_used)))
         self.stats["calls:" + step["fn"]] += 1
         self.sched_sig.append("call:%s:%s:%s" % (step["fn"], outcome[0], ",".join(sorted(set(
@@ -687,7 +745,11 @@ class Ctx:
             self.compare_result(key, outcome[:2], step, "step %d" % sid)
             if outcome[0] == "ok" and "hutch" in tags(step["fn"]):
                 self.check_hutch_steps(step, args)
-        self.check_invariants(sid, "call step %d (%s, outcome %s)" % (sid, step["fn"], outcome[0]))
+        if self.prop == "C18":
+            if deferred is not None:
+                raise Violation(*deferred)
+        else:
+            self.check_invariants(sid, after)
 
     def check_hutch_steps(self, step, args):
         """I-STEPS: Hutchinson performs <= max(1, max_iters) products (measured at the Probe seam)."""
@@ -905,7 +967,13 @@ class Ctx:
                     self.stats["alloc_fail_absorbed"] += 1
                 outcome = ["faulted-returned", ""]
             else:
-                outcome = ["ok", self.digest_of(res)]
+                if step["op"] == "make":
+                    outcome = ["ok", ""]
+                elif self.prop == "C18" and _first_op(res) is not None:
+                    outcome = ["ok", None]  # digest is taken by the observer snapshot that follows the step
+                    self._pending_res = res
+                else:
+                    outcome = ["ok", self.digest_of(res)]
                 if store and rm.is_op(_first_op(res)) and store not in self.pool:
                     self.pool[store] = Entry(_first_op(res), None, None, False, {"k": "result", "of": step["fn"]}, sid)
         self._materialise(sid, cur, f, k)
